@@ -29,29 +29,30 @@ def hidden_marginal(W, b, c, v):
     return tot
 
 
-def one_case(ctx, kind, nv, nh, zero_bias=False):
+def big_bias(ctx, n):
+    """biases with a few entries of magnitude up to ~30 (the quantifier's range), the rest O(1)"""
+    x = gen.nonzero_bias(ctx, n)
+    k = max(1, n // 2)
+    ii = ctx.rng.choice(n, size=k, replace=False)
+    x[ii] = np.exp(ctx.rng.uniform(np.log(3.0), np.log(30.0), size=k)) * ctx.rng.choice([-1.0, 1.0], size=k)
+    return x
+
+
+def evaluate(ctx, s, kind, am, ph, space, case, nontriv, tag=""):
+    """correspondence + oracle for the state object s holding parameters am (and ph); space: full basis tensor"""
     import torch
     m = ctx.get_model()
-    if kind == "positive":
-        s, am = gen.make_positive(ctx, nv, nh, zero_bias)
-        ph = None
-    else:
-        s, am, ph = gen.make_complex(ctx, nv, nh, zero_bias)
     W, b, c = am
-    case = {"state": kind, "nv": nv, "nh": nh, "am": gen.plist(*am), "ph": gen.plist(*ph) if ph else None}
-    space = s.generate_hilbert_space()
     sp = space.numpy()
     E = gen.np_eff_energy(W, b, c, sp)
-    if np.max(-E) > 600 or (ph is not None and np.max(np.abs(gen.np_eff_energy(*ph, sp))) > 1e6):
+    if np.max(-E) > 600 or np.min(-E) < -600 or (ph is not None and np.max(np.abs(gen.np_eff_energy(*ph, sp))) > 1e6):
         ctx.count("skipped_overflow")
-        return
-    nontriv = (not zero_bias) and bool(np.all(b != 0) and np.all(c != 0)) and (nh != nv or kind == "complex")
-    ctx.case({"state": kind, "nv": nv, "nh": nh, "W00": float(W[0, 0]), "b0": float(b[0]), "c0": float(c[0])}, nontrivial=nontriv)
-    ctx.count("shape:%dx%d" % (nv, nh)); ctx.count("state:" + kind)
-    ok, out = ctx.call("state evaluation", case, lambda: (
+        return False
+    ctx.case({"state": kind, "nv": case["nv"], "nh": case["nh"], "W00": float(W[0, 0]), "b0": float(b[0]), "c0": float(c[0]), "step": tag}, nontrivial=nontriv)
+    ok, out = ctx.call("state evaluation" + tag, case, lambda: (
         s.psi(space), s.amplitude(space), s.phase(space), s.probability(space), s.normalization(space)))
     if not ok:
-        return
+        return False
     psi, amp, phase, prob, Z = out
     # ---- correspondence with the Coq model
     if kind == "positive":
@@ -59,41 +60,98 @@ def one_case(ctx, kind, nv, nh, zero_bias=False):
     else:
         r = m.call("cplx_state", W, b, c, ph[0], ph[1], ph[2], sp)
     m_amp, m_phase, m_psi, m_prob, m_Z = r
-    ctx.agree("amplitude", amp, m_amp, case)
-    ctx.agree("phase", phase, m_phase, case)
-    ctx.agree("psi.re", psi[0], [p[0] for p in m_psi], case, scale=max(m_amp))
-    ctx.agree("psi.im", psi[1], [p[1] for p in m_psi], case, scale=max(m_amp))
-    ctx.agree("probability", prob, m_prob, case)
-    ctx.agree("normalization", Z, m_Z, case)
+    ctx.agree("amplitude" + tag, amp, m_amp, case)
+    ctx.agree("phase" + tag, phase, m_phase, case)
+    ctx.agree("psi.re" + tag, psi[0], [p[0] for p in m_psi], case, scale=max(m_amp))
+    ctx.agree("psi.im" + tag, psi[1], [p[1] for p in m_psi], case, scale=max(m_amp))
+    ctx.agree("probability" + tag, prob, m_prob, case)
+    ctx.agree("normalization" + tag, Z, m_Z, case)
     # 1-D call forms agree with the batched form
     for i in (0, len(sp) - 1, len(sp) // 2):
         v1 = space[i]
         ok, o1 = ctx.call("1-D call forms", case, lambda: (s.psi(v1), s.amplitude(v1), s.phase(v1), s.probability(v1)))
         if ok:
-            ctx.agree("psi 1-D", o1[0], [m_psi[i][0], m_psi[i][1]], case, scale=max(m_amp))
-            ctx.agree("amplitude 1-D", o1[1], m_amp[i], case)
-            ctx.agree("phase 1-D", o1[2], m_phase[i], case)
-            ctx.agree("probability 1-D", o1[3], m_prob[i], case)
+            ctx.agree("psi 1-D" + tag, o1[0], [m_psi[i][0], m_psi[i][1]], case, scale=max(m_amp))
+            ctx.agree("amplitude 1-D" + tag, o1[1], m_amp[i], case)
+            ctx.agree("phase 1-D" + tag, o1[2], m_phase[i], case)
+            ctx.agree("probability 1-D" + tag, o1[3], m_prob[i], case)
     # ---- property oracle on the implementation's own outputs
     psi_n = psi.numpy(); prob_n = prob.numpy()
     mod2 = psi_n[0] ** 2 + psi_n[1] ** 2
-    ctx.require("|psi|^2 == probability", np.allclose(mod2, prob_n, rtol=1e-9, atol=0), case, (mod2 - prob_n).tolist())
+    ctx.require("|psi|^2 == probability" + tag, np.allclose(mod2, prob_n, rtol=1e-9, atol=0), case, (mod2 - prob_n).tolist())
     marg = np.array([hidden_marginal(W, b, c, v) for v in sp])
-    ctx.require("probability == hidden-unit marginal", np.allclose(prob_n, marg, rtol=1e-8, atol=0), case,
+    ctx.require("probability == hidden-unit marginal" + tag, np.allclose(prob_n, marg, rtol=1e-7, atol=0), case,
                 {"prob": prob_n.tolist(), "marginal": marg.tolist()})
-    ctx.require("normalization == sum of probabilities", math.isclose(float(Z), float(prob_n.sum()), rel_tol=1e-9), case,
+    ctx.require("normalization == sum of probabilities" + tag, math.isclose(float(Z), float(prob_n.sum()), rel_tol=1e-9), case,
                 {"Z": float(Z), "sum": float(prob_n.sum())})
-    ctx.require("amplitude == sqrt(probability)", np.allclose(amp.numpy() ** 2, marg, rtol=1e-8, atol=0), case)
+    ctx.require("normalization == sum of hidden-unit marginals over the whole basis" + tag, math.isclose(float(Z), float(marg.sum()), rel_tol=1e-7), case,
+                {"Z": float(Z), "sum": float(marg.sum())})
+    ctx.require("amplitude == sqrt(probability)" + tag, np.allclose(amp.numpy() ** 2, marg, rtol=1e-7, atol=0), case)
+    # probability(v, Z): the normalised probabilities sum to one, and scale as 1/Z
+    ok, pz = ctx.call("probability(space, Z)", case, lambda: (s.probability(space, Z), s.probability(space, 2.5)))
+    if ok:
+        ctx.require("normalised probabilities sum to one" + tag, math.isclose(float(pz[0].sum()), 1.0, rel_tol=1e-9), case, float(pz[0].sum()))
+        ctx.require("probability(v, Z) == probability(v) / Z" + tag, np.allclose(pz[1].numpy() * 2.5, prob_n, rtol=1e-12, atol=0), case)
+        ctx.require("normalised state has unit norm" + tag, math.isclose(float(mod2.sum() / float(Z)), 1.0, rel_tol=1e-9), case)
     if kind == "positive":
-        ctx.require("positive state is real and > 0", bool(np.all(psi_n[1] == 0) and np.all(psi_n[0] > 0)), case)
-        ctx.require("positive phase is zero", bool(np.all(phase.numpy() == 0)), case)
+        ctx.require("positive state is real and > 0" + tag, bool(np.all(psi_n[1] == 0) and np.all(psi_n[0] > 0)), case)
+        ctx.require("positive phase is zero" + tag, bool(np.all(phase.numpy() == 0)), case)
     else:
         Eph = gen.np_eff_energy(*ph, sp)
-        ctx.require("phase == -E_ph/2", np.allclose(phase.numpy(), -Eph / 2, rtol=1e-9, atol=1e-12), case)
+        ctx.require("phase == -E_ph/2" + tag, np.allclose(phase.numpy(), -Eph / 2, rtol=1e-9, atol=1e-12), case)
         want = np.sqrt(marg) * np.exp(1j * (-Eph / 2))
         got = psi_n[0] + 1j * psi_n[1]
-        ctx.require("psi == amplitude * exp(i phase)", np.allclose(got, want, rtol=1e-8, atol=1e-12 * np.abs(want).max()), case)
+        ctx.require("psi == amplitude * exp(i phase)" + tag, np.allclose(got, want, rtol=1e-7, atol=1e-12 * np.abs(want).max()), case)
     ctx.traces += 1
+    return True
+
+
+def one_case(ctx, kind, nv, nh, zero_bias=False, large=False, replay_params=None):
+    import torch
+    if kind == "positive":
+        s, am = gen.make_positive(ctx, nv, nh, zero_bias)
+        ph = None
+    else:
+        s, am, ph = gen.make_complex(ctx, nv, nh, zero_bias)
+    if large and not zero_bias:
+        am = (am[0], big_bias(ctx, nv), big_bias(ctx, nh))
+        gen.set_brbm(s.rbm_am, *am)
+        ctx.count("large_biases")
+    if replay_params is not None:
+        am = tuple(np.array(x, dtype=float) for x in replay_params["am"])
+        gen.set_brbm(s.rbm_am, *am)
+        if ph is not None and replay_params.get("ph"):
+            ph = tuple(np.array(x, dtype=float) for x in replay_params["ph"])
+            gen.set_brbm(s.rbm_ph, *ph)
+    W, b, c = am
+    case = {"state": kind, "nv": nv, "nh": nh, "am": gen.plist(*am), "ph": gen.plist(*ph) if ph else None}
+    # the full basis, enumerated independently of the library (itertools order = big-endian)
+    space = torch.tensor(np.array(list(itertools.product([0.0, 1.0], repeat=nv))), dtype=torch.double)
+    nontriv = (not zero_bias) and bool(np.all(b != 0) and np.all(c != 0)) and (nh != nv or kind == "complex")
+    ctx.count("shape:%dx%d" % (nv, nh)); ctx.count("state:" + kind)
+    if not evaluate(ctx, s, kind, am, ph, space, case, nontriv):
+        return
+    if replay_params is not None:
+        return
+    # ---- a second parameter setting on the SAME state object and the SAME space tensor (a history, not a fresh state):
+    #      parameters are rewritten the three ways user code and load() do it
+    how = int(ctx.rng.integers(0, 3))
+    am2 = gen.brbm_params(ctx, nv, nh)
+    ph2 = gen.brbm_params(ctx, nv, nh) if ph is not None else None
+    def write(rbm, W_, b_, c_):
+        if how == 0:
+            gen.set_brbm(rbm, W_, b_, c_)                                    # .data = new tensor
+        elif how == 1:
+            rbm.weights.data.copy_(torch.tensor(W_)); rbm.visible_bias.data.copy_(torch.tensor(b_)); rbm.hidden_bias.data.copy_(torch.tensor(c_))
+        else:
+            rbm.load_state_dict({"weights": torch.tensor(W_), "visible_bias": torch.tensor(b_), "hidden_bias": torch.tensor(c_)})
+    write(s.rbm_am, *am2)
+    if ph2 is not None:
+        write(s.rbm_ph, *ph2)
+    ctx.count("rewrite_how:%d" % how)
+    case2 = {"state": kind, "nv": nv, "nh": nh, "am": gen.plist(*am2), "ph": gen.plist(*ph2) if ph2 else None,
+             "history": "evaluate, rewrite parameters (how=%d), evaluate again on the same object and space" % how, "first_am": case["am"]}
+    evaluate(ctx, s, kind, am2, ph2, space, case2, nontriv, tag=" (after rewriting the parameters of the same object)")
 
 
 def run(ctx):
@@ -102,7 +160,7 @@ def run(ctx):
         for kind in ("positive", "complex"):
             for d in range(draws):
                 ctx.torch_seed()
-                one_case(ctx, kind, nv, nh)
+                one_case(ctx, kind, nv, nh, large=(d % 3 == 2))
     # a few fresh-initialisation style cases (zero biases), the only regime the test-suite visits
     for kind in ("positive", "complex"):
         one_case(ctx, kind, 2, 2, zero_bias=True)
@@ -125,6 +183,9 @@ def search(ctx, broken, budget):
 
 
 def replay(ctx, rec):
+    """re-executes exactly the recorded failing case (parameters are stored in the replay file)"""
     case = rec.get("failing", {}).get("case", {})
-    print("replay of", case.get("state"), case.get("nv"), case.get("nh"))
-    run(ctx)
+    if case.get("am"):
+        one_case(ctx, case.get("state", "positive"), int(case["nv"]), int(case["nh"]), replay_params=case)
+    else:
+        run(ctx)
